@@ -258,17 +258,21 @@ package fsnotify
 //@   consumes reader
 //@   mode modeA: !enableRecurse
 //@   requires token(reader) && nolocks() && Wf(w) && RingInv(w)
-//@   requires !closed(w.Events) && !closed(w.Errors) && !closed(w.doneResp)
+//@   requires !closed(w.Events) && !closed(w.Errors) && !closed(w.doneResp) && !pendingRead
 //@   ensures closed(w.Events) && closed(w.Errors) && closed(w.doneResp)                   [C06 C13] "the reader closes both channels when it exits"
 //@   ensures token(closer) ==> !fdOpen                                                    [C13 C06] "whoever marks the watcher closed also releases its descriptor: the reader does not take that role without doing so"
 //@   ensures nolocks()                                                                    [C05]
+//@   local n int
+//@   atcall shared.sendError: arg_err == ErrEventOverflow || !lastReadOK || n < unix.SizeofInotifyEvent      [C10 C01] "Errors gets a value from the reader only for a failed read, a short read or a queue overflow: a complete read is decoded, not reported"
 //@   ghostvar k Int = 0
 //@   ghostvar hs hist
 //@   ghostvar he hist
 //@   ghostvar p0 set[uint32]
 //@   loop 1 "for"
 //@     invariant token(reader) && nolocks() && Wf(w) && RingInv(w) && !closed(w.Events) && !closed(w.Errors) && !closed(w.doneResp)    [C05 C06]
+//@     invariant !pendingRead                                                             [C01] "a read that returned whole records is always decoded before the next read"
 //@   loop 2 "for offset <= uint32(n-unix.SizeofInotifyEvent)"
+//@     init pendingRead = false
 //@     init k = 0
 //@     init hs = hist(w.Events)
 //@     init he = hist(w.Errors)
